@@ -105,6 +105,29 @@ func c12(c *h.Ctx) {
 	}
 	c.Eq("nalu.dec", "avc.nalu.dec -", avcNaluDec(nil), c.O.Call("avc.nalu.dec", "-"))
 
+	// 1b. parsed values belong to the caller: the application EDITS the exported header fields of a NAL unit it
+	// parsed (re-tagging a unit, clearing nal_ref_idc) — every other NAL unit already parsed from the same header
+	// byte, and every later parse of that byte (alone, inside a record, inside a sample), must be unaffected
+	for b := 0; b < 128; b++ {
+		bs := []byte{byte(b), 0xaa, 0xbb}
+		first, keep := avc.NewNALU(), avc.NewNALU()
+		e1, e2 := first.UnmarshalBinary(bs), keep.UnmarshalBinary(bs)
+		if e1 != nil || e2 != nil || first.NALUHeader == nil {
+			continue
+		}
+		first.NALRefIDC = avc.NALRefIDC((int(first.NALRefIDC) + 1) % 4)
+		first.NALUType = avc.NALUType((int(first.NALUType) + 7) % 32)
+		later := avc.NewNALU()
+		later.UnmarshalBinary(bs)
+		in := fmt.Sprintf("avc.nalu: parse %s twice, edit the header fields of the first, parse again", h.Hex(bs))
+		o1, _ := keep.MarshalBinary()
+		o2, _ := later.MarshalBinary()
+		c.Hold(h.Hex(o1) == h.Hex(bs) && h.Hex(o2) == h.Hex(bs), "nalu.parsed_values_are_independent", in, h.Hex(o1)+" / "+h.Hex(o2), h.Hex(bs)+" / "+h.Hex(bs))
+		sd := avcSampleDec(4, append([]byte{0, 0, 0, 3}, bs...))
+		c.Eq("sample.dec", "avc.sample.dec 4 00000003"+h.Hex(bs)+" (after edits of parsed units)", sd, c.O.Call("avc.sample.dec", "4", "00000003"+h.Hex(bs)))
+		c.Case("nalu/parsed-then-edited", in, true)
+	}
+
 	// 2. NALU round trip + spec, all in-range header values.
 	for ri := 0; ri < 4; ri++ {
 		for ty := 0; ty < 32; ty++ {
